@@ -146,6 +146,38 @@ func tags(c *Case, obs *RunObs) ([]string, bool) {
 			atomRerun = atomRerun || n.Atom && len(n.Rerun) > 0
 		}
 	}
+	nodata := false
+	for _, g := range c.Graphs {
+		if g.Mode != "wf" {
+			continue
+		}
+		for _, n := range g.Nodes {
+			nd, nc := 0, 0
+			for _, e := range g.Edges {
+				if e.To == n.ID {
+					if e.Kind != 1 {
+						nd++
+					} else {
+						nc++
+					}
+				}
+			}
+			for _, b := range g.Branches {
+				for _, tg := range b.Targets {
+					if tg == n.ID {
+						nd++
+					}
+				}
+			}
+			nodata = nodata || nd == 0 && nc > 0
+		}
+	}
+	if nodata {
+		t = append(t, "control-only-node")
+		if len(obs.Segs) > 1 {
+			t = append(t, "control-only-node:resumed-run")
+		}
+	}
 	if atom {
 		t = append(t, "atom-input")
 	}
